@@ -12,7 +12,9 @@ RULE = ('finite generators (gate, envelope with windows cosine-squared/hann/hamm
         'off-grid start/duration/rise times; draw histories that cross every boundary (and one below / one above it) and run past the '
         'end, with NumPy int and (where the stimulus reports them) float draw counts, zero-sample draws, get_samples_remaining(), the '
         'caller overwriting the arrays it receives, and n_samples / n_samples_remaining / is_complete / get_duration queried before '
-        'and after every draw; stim.envelope / cos2envelope called directly for the whole stimulus (samples="auto") and beyond. '
+        'and after every draw; stim.envelope / cos2envelope called directly for the whole stimulus (samples="auto") and beyond; '
+        'sequences of memoised envelope calls whose arguments collide under a wrong cache key, each judged against the model, the '
+        'un-memoised function and the contract; NumPy\'s global generator reseeded and a second noise generator drawn between operations. '
         'Non-trivial: the history draws past the end or the stimulus has a non-zero start or a ramp. '
         'Distinct = distinct (config, rate, history).')
 TRUSTED = ['harness/stimcore.py (see C01)', 'scipy.signal.windows.* and cos2ramp give the ramp values (oracle for the window shape)']
@@ -164,6 +166,8 @@ def cases(tier, rng):
             if rng.random() < 0.25:
                 c['scr'] = True
             yield c
+        # sequences of memoised envelope calls whose arguments collide under a wrong cache key
+        yield from sc.memo_cases(fs, rng, 30 if quick else 400, ['envelope', 'cos2envelope'])
 
 
 def _envfn_params(case):
@@ -188,6 +192,8 @@ def _envfn_call(case):
 
 
 def impl(case):
+    if case.get('k') == 'memo':
+        return sc.memo_impl(case)
     if case.get('k') == 'envfn':
         try:
             e = _envfn_call(case)
@@ -203,6 +209,8 @@ def impl(case):
 
 def expr(case, res):
     from vlib import zlit
+    if case.get('k') == 'memo':
+        return sc.memo_expr(case)
     if case.get('k') == 'envfn':
         elb, dur, rise, n = _envfn_params(case)
         return f"run_envelope {zlit(elb)} {zlit(dur)} {zlit(rise)} 0 {zlit(n)}"
@@ -211,6 +219,8 @@ def expr(case, res):
 
 
 def agree(case, res, mo):
+    if case.get('k') == 'memo':
+        return sc.memo_agree(case, res, mo)
     if case.get('k') == 'envfn':
         if mo[0] == 2:
             return None if res[0] == 'raise' else 'model raises ValueError, implementation returned an envelope'
@@ -242,6 +252,8 @@ def _total(cfg, fs):
 
 
 def nontrivial(case, res):
+    if case.get('k') == 'memo':
+        return True
     if case.get('k') == 'envfn':
         return res[0] == 'ok' and len(res[1]) > 0
     tot = _total(case['cfg'], case['fs'])
@@ -286,7 +298,29 @@ def _envfn_oracle(case, res):
     return _shape(a, elb, d, r, case['window'])
 
 
+def _memo_contract(case, res):
+    """the duration contract on every call of a memoised sequence: sample count, zeros outside, rise rejection"""
+    for c, r in zip(case['calls'], res):
+        a = sc._memo_bound(c)
+        elb, d, rise, o, n = sc._memo_env_params(a)
+        if r[0] == 'raise':
+            if d >= 2 * rise:
+                return f'{c}: raised ValueError although rise <= duration/2'
+            continue
+        if d < 2 * rise:
+            return f'{c}: a rise time longer than half the duration was not rejected'
+        v = np.asarray(r[1], dtype=float)
+        if len(v) != n:
+            return f'{c}: returned {len(v)} samples, expected {n}'
+        idx = np.arange(n) + o
+        if np.any(v[(idx < elb) | (idx >= elb + d)] != 0):
+            return f'{c}: non-zero sample outside [start, start+duration)'
+    return None
+
+
 def oracle(case, res):
+    if case.get('k') == 'memo':
+        return sc.memo_oracle(case, res) or _memo_contract(case, res)
     if case.get('k') == 'envfn':
         return _envfn_oracle(case, res)
     fs, cfg = case['fs'], case['cfg']
@@ -356,7 +390,9 @@ def oracle(case, res):
 def distribution(cases, results):
     d = {}
     for c in cases:
-        if c.get('k') == 'envfn':
+        if c.get('k') == 'memo':
+            k = 'memoised call sequence'
+        elif c.get('k') == 'envfn':
             k = 'envelope():' + c['call']
         else:
             k = c['cfg']['t'] + (':' + c['cfg']['window'] if c['cfg']['t'] == 'env' else '')
